@@ -47,7 +47,7 @@ TIERS = {
     "thorough": {"runs": 1500000, "budget_s": 900, "max_ops": 60},
 }
 
-SOLVER_ONLY = ("is_sat", "is_valid", "is_unsat", "solve_assuming", "read", "oneshot_fails")
+SOLVER_ONLY = ("is_sat", "is_valid", "is_unsat", "solve_assuming", "read", "oneshot_fails", "interrupted_read")
 SCRIPT_ONLY = ("assert_soft", "goal")
 
 
@@ -67,7 +67,7 @@ def gen_plan(tape, cfg):
     # swarm: which op kinds are enabled in this run
     kinds = [(6, "assert"), (3, "push"), (3, "pop"), (1, "reset"), (3, "check")]
     for w, k in [(2, "assert_soft"), (2, "goal"), (3, "is_sat"), (1, "is_valid"), (1, "is_unsat"),
-                 (2, "solve_assuming"), (2, "read"), (1, "oneshot_fails")]:
+                 (2, "solve_assuming"), (2, "read"), (1, "oneshot_fails"), (1, "interrupted_read")]:
         if tape.chance(2, 3, "enable." + k):
             kinds.append((w, k))
     for _ in range(n):
@@ -134,6 +134,8 @@ def gen_plan(tape, cfg):
             ops.append({"op": "solve_assuming", "fs": fs})
         elif k == "read":
             ops.append({"op": "read"})
+        elif k == "interrupted_read":
+            ops.append({"op": "interrupted_read"})
         elif k == "oneshot_fails":
             # a one-shot query that raises (the back end cannot convert the formula, or answers
             # unknown) must also leave the assertion list as it found it
@@ -147,7 +149,7 @@ def gen_plan(tape, cfg):
         # a second concrete tracking solver: the real Portfolio (its proxies differ: _reset_assertions
         # is not wrapped in clear_pending_pop) over two simulated member processes
         plan["backend"] = "portfolio"
-        plan["ops"] = [o for o in ops if o["op"] not in ("oneshot_fails",)][:14]
+        plan["ops"] = [o for o in ops if o["op"] not in ("oneshot_fails", "interrupted_read")][:14]
         plan["delays"] = [tape.choice([0.0, 0.5, 0.5, 1.0], "pf.delay") for _ in range(2)]
     return plan
 
@@ -274,7 +276,7 @@ def _solver_half(plan, ops, symbols, tape, probe, trace):
         if k in SCRIPT_ONLY:
             continue
         stack_op = k in ("push", "pop", "reset", "assert")
-        if unresolved_oneshot and k != "read":
+        if unresolved_oneshot and k not in ("read", "interrupted_read"):
             if stack_op and (k not in ("push", "pop") or o["n"] > 0):
                 nontrivial = True
                 probe("pending_pop_before_" + k)
@@ -353,6 +355,20 @@ def _solver_half(plan, ops, symbols, tape, probe, trace):
             solver.fault_plan.get("unknown_at", set()).clear()
             unresolved_oneshot = True
             nontrivial = True
+        elif k == "interrupted_read":
+            # the user interrupts (KeyboardInterrupt, not an Exception) while the level a one-shot
+            # query left behind is being removed; nothing was removed, so it is removed next time
+            solver.fault_plan["interrupt_next_pop"] = True
+            try:
+                list(solver.assertions)
+            except KeyboardInterrupt:
+                probe("interrupted_deferred_pop")
+                nontrivial = True
+            solver.fault_plan["interrupt_next_pop"] = False
+            observe("interrupted read@%d" % i)
+            unresolved_oneshot = False
+            trace.append(("interrupted_read", len(model.live_assertions())))
+            continue
         elif k == "read":
             observe("read@%d" % i)
             unresolved_oneshot = False
